@@ -168,6 +168,48 @@ def raw_parse(d):
     return out
 
 
+def walk_end(d):
+    """Independent structural walk over all four sections: the offset just past the last record the
+    header announces, or None when the records run off the end / are not walkable."""
+    if len(d) < 12:
+        return None
+    _, _, qd, an, ns, ar = struct.unpack("!HHHHHH", d[:12])
+    pos = 12
+
+    def skip_name(p):
+        while True:
+            if p >= len(d):
+                return None
+            c = d[p]
+            if c == 0:
+                return p + 1
+            if c & 0xC0 == 0xC0:
+                return p + 2 if p + 2 <= len(d) else None
+            if c & 0xC0:
+                return None
+            p += 1 + c
+
+    for _ in range(qd):
+        pos = skip_name(pos)
+        if pos is None or pos + 4 > len(d):
+            return None
+        pos += 4
+    for _ in range(an + ns + ar):
+        pos = skip_name(pos)
+        if pos is None or pos + 10 > len(d):
+            return None
+        rdlen = struct.unpack("!H", d[pos + 8 : pos + 10])[0]
+        pos += 10 + rdlen
+        if pos > len(d):
+            return None
+    return pos
+
+
+def has_trailing_octets(d):
+    e = walk_end(d)
+    return e is not None and e < len(d)
+
+
 def is_response_raw(q_raw, r_raw):
     """The documented acceptance rule on raw header/question data."""
     if r_raw is None:
@@ -294,6 +336,8 @@ def build_datagram(q, qwire, kind, arg, marker, rng_bytes):
         return struct.pack("!HHHHHH", q.id, 0x8000 | 3, 0, 0, 0, 0)
     if kind == "tc_genuine":
         return genuine_wire(q, marker, tc=True)
+    if kind == "tc_trailing":
+        return genuine_wire(q, marker, tc=True) + bytes(rng_bytes[: 1 + arg % 8])
     if kind == "tc_forged":
         b = bytearray(genuine_wire(q, marker, tc=True))
         b[1] ^= 0x01
@@ -319,7 +363,7 @@ def build_datagram(q, qwire, kind, arg, marker, rng_bytes):
 UDP_KINDS = [
     "genuine", "genuine", "wrong_id", "not_response", "wrong_opcode", "wrong_qtype", "wrong_qclass", "wrong_qname",
     "qname_case", "garbage", "cut", "bitflip", "trailing", "rcode_noq", "rcode_noq_nx", "tc_genuine", "tc_forged",
-    "tc_cut", "icmp", "empty", "forged_addr", "forged_port", "textual", "mcast_other", "extra_question", "noq_noerror", "forged_scope", "forged_flow",
+    "tc_cut", "tc_trailing", "icmp", "empty", "forged_addr", "forged_port", "textual", "mcast_other", "extra_question", "noq_noerror", "forged_scope", "forged_flow",
 ]
 
 
@@ -403,7 +447,7 @@ def gen_case(seed, tier):
         return base
     base["kind"] = rng.choice(["tcp_full", "tcp_full", "fallback"])
     base["connect"] = rng.choice([["ok", 0.0], ["ok", 0.0], ["ok", 0.1], ["refused", 0.0], ["refused", 0.05], ["hang"]])
-    base["reply"] = rng.choice(["genuine", "genuine", "genuine", "wrong_id", "garbage", "eof", "stall", "not_response", "trailing"])
+    base["reply"] = rng.choice(["genuine", "genuine", "genuine", "wrong_id", "garbage", "eof", "stall", "not_response", "trailing", "tc_trailing"])
     base["cuts"] = sorted(rng.randrange(1, 120) for _ in range(rng.choice([0, 1, 3, 8])))
     base["gaps"] = [rng.choice([0.0, 0.01, 0.1]) * base["timeout"] for _ in range(10)]
     base["tx_accept"] = [rng.choice([0, 1, 2, 5, 1000]) for _ in range(rng.choice([0, 0, 2, 6]))]
@@ -499,6 +543,15 @@ def expect_udp(case, q_raw, mats, start=0):
             truncated = True
         except Exception as e:  # noqa: BLE001
             parse_exc = type(e).__name__
+        trailing = not o.get("ignore_trailing", False) and has_trailing_octets(payload)
+        if trailing and parse_exc is None and not truncated:
+            # octets after the last record and trailing data not allowed: malformed, whatever the
+            # library's own parser says about it (independent of the flags in the header)
+            parse_exc = "TrailingJunk"
+            fired.append("trailing_octets_seen_by_independent_walk")
+        if truncated and trailing and not o["raise_on_truncation"]:
+            truncated = False
+            parse_exc = "TrailingJunk"
         if truncated:
             ambiguous = (
                 raw is not None
@@ -1036,6 +1089,8 @@ def _reply_stream(case, q):
         w = bytes((i * 37 + 11) % 256 for i in range(40))
     elif kind == "trailing":
         w = g + b"\x00\x01"
+    elif kind == "tc_trailing":
+        w = genuine_wire(q, 7, tc=True) + b"\x00\x01"
     else:
         w = g
     stream = len(w).to_bytes(2, "big") + w
@@ -1193,7 +1248,7 @@ def _run_tcp_full(case, res, log):
                 raise Violation("C18:tcp-send-bytes", f"{tag}: peer did not receive exactly the framed query")
             if elapsed > case["timeout"] * (2 if fallback else 1) + 1e-6:
                 raise Violation("C18:returned-after-deadline", f"{tag}: returned after {elapsed}s")
-            if case["reply"] not in ("genuine",) and not (case["reply"] == "trailing" and case["ignore_trailing"]):
+            if case["reply"] not in ("genuine",) and not (case["reply"] in ("trailing", "tc_trailing") and case["ignore_trailing"]):
                 raise Violation("C18:returned-not-genuine", f"{tag}: a {case['reply']} reply was returned")
             if case["connect"][0] != "ok":
                 raise Violation("C18:returned-not-delivered", f"{tag}: returned a message although the connection was never established")
@@ -1222,7 +1277,7 @@ def _run_tcp_full(case, res, log):
                         dns.message.from_wire(w)
                     except Exception as e:  # noqa: BLE001
                         allowed |= {type(e).__name__}
-                elif kind == "trailing" and not case["ignore_trailing"]:
+                elif kind in ("trailing", "tc_trailing") and not case["ignore_trailing"]:
                     allowed |= {"TrailingJunk"}
             if name not in allowed:
                 raise Violation("C18:wrong-exception", f"{tag}: raised {name}, acceptable {sorted(allowed)}")
